@@ -172,12 +172,13 @@ prop(
 prop(
     "C06",
     module="Aquatic.Props.C06",
-    extra_modules=["Aquatic.Props.C13"],
+    extra_modules=["Aquatic.Props.C13", "Aquatic.Props.UringSend"],
     technique="Lean 4 proof over all datagrams, sources and configurations of the per-datagram decision of both socket back ends + socket-level differential runs against the real tracker process (mio and io_uring)",
-    runs=[dict(harness="udpnet", driver="udpnet", quick=dict(cases=6), thorough=dict(cases=60))],
-    nontrivial=["id-stale", "id-foreign", "id-forged", "reply-error", "announce+extension", "uring>cap", "reply-scrape"],
-    level_text="Theorems for every datagram, source address and port, limit and validity oracle: a source holding no valid connection id obtains nothing or the 16-byte connect reply to a datagram of at least 16 bytes (both back ends); a non-connect reply implies that the id carried by the datagram is valid for the canonical source; port 0 is ignored; well-formed connect / announce / scrape requests (with any trailing extension bytes) get exactly the reply kind the request calls for with its transaction id, announces of the sender's family, scrapes cut to the first max_scrape_torrents hashes in order; invalid ids and unparseable datagrams get silence; io_uring decides like mio on every datagram its receive buffer holds. The full statement fails for io_uring beyond that (negation proved with a 24-hash scrape: finding F6). Tie: a tracker child process per case on loopback, several client sockets at once, every reply matched to the socket it arrived on and compared with the model's decision.",
-    level_note="partial for the runtime part: kernel delivery, EWOULDBLOCK resend queue and the source address the kernel reports are exercised by the runs, not modelled. Trusted: validity oracle = C05's theorem; access list = C11's.",
+    runs=[dict(harness="udpnet", driver="udpnet", quick=dict(cases=6), thorough=dict(cases=60)),
+          dict(harness="uringsend", driver="uringsend", quick=dict(cases=300), thorough=dict(cases=6000))],
+    nontrivial=["id-stale", "id-foreign", "id-forged", "reply-error", "announce+extension", "uring>cap", "reply-scrape", "all-in-flight", "skipped-taken-buffers", "prep-serfail"],
+    level_text="Theorems for every datagram, source address and port, limit and validity oracle: a source holding no valid connection id obtains nothing or the 16-byte connect reply to a datagram of at least 16 bytes (both back ends); a non-connect reply implies that the id carried by the datagram is valid for the canonical source; port 0 is ignored; well-formed connect / announce / scrape requests (with any trailing extension bytes) get exactly the reply kind the request calls for with its transaction id, announces of the sender's family, scrapes cut to the first max_scrape_torrents hashes in order; invalid ids and unparseable datagrams get silence; io_uring decides like mio on every datagram its receive buffer holds. Send side of the io_uring worker (Props/UringSend over Model/UringSend: the finite pool of reply buffers and the queue of computed replies, any pool size, arrivals, send phases, completions in any order): the buffer a reply is written into is free and never one the kernel may still be reading, a buffer is marked taken exactly when an uncompleted send uses it, replies leave the queue in order, each exactly once, and are then in flight, sent, or dropped only for not fitting the buffer (which C18 excludes for accepted configurations); a reply that finds no buffer stays at the head of the queue and goes out once a buffer is free. The full statement fails for io_uring beyond that (negation proved with a 24-hash scrape: finding F6). Tie: a tracker child process per case on loopback, several client sockets at once, every reply matched to the socket it arrived on and compared with the model's decision; the real SendBuffers driven in-process (hook) through generated prepare / completion / reset sequences, compared call by call with the model.",
+    level_note="partial for the runtime part: kernel delivery, EWOULDBLOCK resend queue (mio), the inline queue handling of the io_uring loop (modelled by hand, exercised by the socket-level runs only) and the source address the kernel reports are exercised by the runs, not modelled. Trusted: validity oracle = C05's theorem; access list = C11's.",
     design_ref="§8 C06",
     assumptions=["stale ids are produced on the mio back end only (the io_uring back end refreshes its clock by timer; same validator code)",
                  "replies are awaited for a bounded time; silence = no datagram within that time"],
@@ -200,10 +201,11 @@ prop(
 prop(
     "C18",
     module="Aquatic.Props.C18",
-    extra_modules=["Aquatic.Props.C06", "Aquatic.Props.C16"],
+    extra_modules=["Aquatic.Props.C06", "Aquatic.Props.C16", "Aquatic.Props.UringSend"],
     technique="Lean 4 proof (reply sizes derived from the codec model; the start-up validation implies every reply of an accepted configuration fits the send buffer of the back end, refuses nothing that fits, accepts the defaults; HTTP frame carries the whole body for any length) + socket-level boundary runs against the real tracker process",
     runs=[dict(harness="udpnet", driver="udpnet", quick={"cases": 7, "boundaries-first": 1}, thorough={"cases": 48, "boundaries-first": 1}),
-          dict(harness="httpnet", driver="store", quick=dict(cases=8), thorough=dict(cases=80))],
+          dict(harness="httpnet", driver="store", quick=dict(cases=8), thorough=dict(cases=80)),
+          dict(harness="uringsend", driver="uringsend", quick=dict(cases=300), thorough=dict(cases=6000))],
     nontrivial=["big", "refused", "scrape-nonzero", "scrape-truncated", "uring>cap"],
     level_text="Theorems: the length of every serialised UDP reply equals the formula used (from the regenerated layouts); for every max_response_peers / max_scrape_torrents the start-up check accepts, every announce reply with at most that many peers of either family and every scrape reply with at most that many entries is no longer than the mio / io_uring send buffer (regenerated sizes); a configuration is refused iff one of its two worst-case replies does not fit; defaults accepted; exact boundaries 454/455 (mio), 112/113 and 170/171 (io_uring); the HTTP frame carries the complete body for every body length. Tie: trackers started at and just over the boundary (must deliver the largest IPv6 announce reply whole / must refuse to start), HTTP scrapes of 56..64 raw hashes under default limits. Receive side of io_uring: finding F6.",
     level_note="partial: the HTTP request buffer (2048 bytes) bounds the requests that are accepted at all, so no accepted request is lost to it; kernel socket buffers are not modelled.",
